@@ -1,6 +1,7 @@
 package main
 
 import (
+	"go/token"
 	"go/types"
 	"sort"
 	"strings"
@@ -176,6 +177,8 @@ func runC18(c *Ctx, tier string) {
 		c18VoidFlush(c, fn, name)
 	}
 	c18Buffered(c)
+	c.Rule("C18-E5", "a writer that wraps a closer closes it: every nil return of its Close has closed the wrapped io.WriteCloser")
+	c18CloseReaches(c)
 	c.Floor("C18-E1", 90)
 	c.Floor("C18-E4", 4)
 }
@@ -367,5 +370,105 @@ func c18CheckBufferedType(c *Ctx, tn *types.TypeName, field, ftype, flushName st
 	} else if !any {
 		// embedded buffered writer whose writes are made by clients (bufwriter): needs a flushing Close
 		c.Fail("C18-E4", construct, tn.Pos(), "type holds a buffered "+ftype+" but neither a Close that flushes on every path nor a flushing write method")
+	}
+}
+
+// c18CloseReaches: E5.  A writer that wraps a closer must close it: buffered sinks
+// (bufwriter, storage puts) only become durable / visible on Close, so a Close that
+// returns nil without closing the wrapped sink reports success for bytes that never arrived.
+func c18CloseReaches(c *Ctx) {
+	p := c.P
+	closerIfaces := map[string]bool{"io.WriteCloser": true, "io.Closer": true, "zio.WriteCloser": true, "io.ReadWriteCloser": true}
+	n := 0
+	for rp, pk := range p.Pkgs {
+		if !c18EntryPkgs[rp] {
+			continue
+		}
+		sc := pk.Types.Scope()
+		for _, name := range sc.Names() {
+			tn, ok := sc.Lookup(name).(*types.TypeName)
+			if !ok {
+				continue
+			}
+			st, ok := tn.Type().Underlying().(*types.Struct)
+			if !ok {
+				continue
+			}
+			tname := namedOf(tn.Type())
+			closeFn := p.Func("(*" + tname + ").Close")
+			if closeFn == nil {
+				continue // no Close of its own (promoted or not a closer)
+			}
+			if errIndex(closeFn.Signature) < 0 {
+				continue
+			}
+			for i := 0; i < st.NumFields(); i++ {
+				f := st.Field(i)
+				if !closerIfaces[short(f.Type().String())] {
+					continue
+				}
+				n++
+				construct := tname + ".Close closes ." + f.Name()
+				closes := func(in ssa.Instruction) bool {
+					ci, ok := in.(*ssa.Call)
+					if !ok {
+						return false
+					}
+					cc := ci.Common()
+					if cc.IsInvoke() && cc.Method.Name() == "Close" && isFieldLoad(cc.Value, f.Name()) {
+						return true
+					}
+					// a helper method of the same type that closes on every path
+					if g := cc.StaticCallee(); g != nil && g != closeFn && g.Signature.Recv() != nil && namedOf(g.Signature.Recv().Type()) == tname {
+						for _, c2 := range allCalls(g) {
+							if c2.Common().IsInvoke() && c2.Common().Method.Name() == "Close" && isFieldLoad(c2.Common().Value, f.Name()) {
+								return true
+							}
+						}
+					}
+					return false
+				}
+				// a nil return is fine where the wrapped sink is known to be nil (nothing was opened)
+				var nilTests []*ssa.BinOp
+				for _, b := range closeFn.Blocks {
+					for _, in := range b.Instrs {
+						if cmp, ok := in.(*ssa.BinOp); ok && cmp.Op == token.EQL && isNilConst(cmp.Y) && isFieldLoad(cmp.X, f.Name()) {
+							nilTests = append(nilTests, cmp)
+						}
+					}
+				}
+				isRet := func(in ssa.Instruction) bool {
+					r, ok := in.(*ssa.Return)
+					if !ok || !isNilConst(returnOperand(r, len(r.Results)-1)) {
+						return false
+					}
+					for _, t := range nilTests {
+						if trueEdgeDominatesOrSelf(t, r.Block()) {
+							return false
+						}
+					}
+					return true
+				}
+				// deferred close also counts
+				deferred := false
+				for _, ci := range allCalls(closeFn) {
+					if d, ok := ci.(*ssa.Defer); ok && d.Call.IsInvoke() && d.Call.Method.Name() == "Close" && isFieldLoad(d.Call.Value, f.Name()) {
+						deferred = true
+					}
+				}
+				if deferred {
+					c.Fail("C18-E5", construct, closeFn.Pos(), "the wrapped sink is closed by a deferred call whose error is discarded")
+					continue
+				}
+				if r := reachAvoiding(closeFn, nil, closes, isRet); r != nil {
+					c.Fail("C18-E5", construct, r.Pos(), "Close can return nil without closing the wrapped sink: buffered bytes (bufwriter, storage put) never reach it, yet success is reported")
+				} else {
+					c.OK("C18-E5", construct, closeFn.Pos(), "every nil return of Close has closed the wrapped sink")
+				}
+			}
+		}
+	}
+	if n < 6 {
+		c.Undecided("C18-E5", "writer types wrapping a closer", "fewer than 6 found")
 	}
 }
